@@ -185,14 +185,14 @@ theorem applyKwargs_avoid (B : Nat → Bool) (hB : ∀ c, B c = true → badKwCh
 
 /-! ### what acceptance means -/
 
-/-- a returning call on the empty jar: both conversions succeeded, every check passed, and the Morsel is the base
-Morsel after the whole keyword loop -/
-theorem setCookie_accept_inv (a : CookieArgs) (m : Morsel) (h : setCookie [] a = ([m], none)) :
+/-- a successful `buildMorsel`: both conversions succeeded, every check passed, the Morsel is the base Morsel after
+the whole keyword loop, and the header it produces is one `flush` can send -/
+theorem buildMorsel_ok_inv (a : CookieArgs) (m : Morsel) (h : buildMorsel a = .ok m) :
     ∃ name value, nativeStr a.name = .ok name ∧ nativeStr a.value = .ok value ∧ hasCtlOrSpace value = false ∧
       hasBadAttrChar name = false ∧ optBad a.domain = false ∧ optBad a.path = false ∧ optBad a.samesite = false ∧
       a.kwargs.any kwBad = false ∧ isReserved name = false ∧ isLegalKey name = true ∧
-      applyKwargs (baseMorsel name value a) a.kwargs = (m, none) := by
-  unfold setCookie at h
+      applyKwargs (baseMorsel name value a) a.kwargs = (m, none) ∧ sendable (outputString m) = true := by
+  unfold buildMorsel at h
   cases hn : nativeStr a.name with
   | error e => rw [hn] at h; cases h
   | ok name =>
@@ -210,12 +210,38 @@ theorem setCookie_accept_inv (a : CookieArgs) (m : Morsel) (h : setCookie [] a =
           · simp [h1, h2, h3] at h
           · by_cases h4 : (isReserved name || !isLegalKey name) = true
             · simp [h1, h2, h3, h4] at h
-            · simp only [h1, h2, h3, h4, Bool.false_eq_true, ↓reduceIte, jarErase, List.filter_nil, List.nil_append,
-                Prod.mk.injEq, List.cons.injEq, and_true] at h
+            · simp only [h1, h2, h3, h4, Bool.false_eq_true, ↓reduceIte] at h
               simp only [Bool.or_eq_true, not_or, Bool.not_eq_true, Bool.not_eq_true', Bool.not_eq_false] at h2 h4
-              refine ⟨name, value, rfl, rfl, by simpa using h1, h2.1.1.1, h2.1.1.2, h2.1.2, h2.2, by simpa using h3,
-                h4.1, h4.2, ?_⟩
-              exact Prod.ext h.1 h.2
+              cases hk : applyKwargs (baseMorsel name value a) a.kwargs with
+              | mk m' e' =>
+                rw [hk] at h
+                cases e' with
+                | some e => cases h
+                | none =>
+                  simp only at h
+                  by_cases h5 : sendable (outputString m') = true
+                  · simp only [h5, ↓reduceIte, Except.ok.injEq] at h
+                    subst h
+                    exact ⟨name, value, rfl, rfl, by simpa using h1, h2.1.1.1, h2.1.1.2, h2.1.2, h2.2,
+                      by simpa using h3, h4.1, h4.2, hk, h5⟩
+                  · simp [h5] at h
+
+theorem setCookie_nil_build (a : CookieArgs) (m : Morsel) (h : setCookie [] a = ([m], none)) :
+    buildMorsel a = .ok m := by
+  obtain ⟨m', hb, hj⟩ := (setCookie_ok_iff [] [m] a).mp h
+  simp only [jarErase, List.filter_nil, List.nil_append, List.cons.injEq, and_true] at hj
+  rw [hj]; exact hb
+
+/-- a returning call on the empty jar: both conversions succeeded, every check passed, and the Morsel is the base
+Morsel after the whole keyword loop -/
+theorem setCookie_accept_inv (a : CookieArgs) (m : Morsel) (h : setCookie [] a = ([m], none)) :
+    ∃ name value, nativeStr a.name = .ok name ∧ nativeStr a.value = .ok value ∧ hasCtlOrSpace value = false ∧
+      hasBadAttrChar name = false ∧ optBad a.domain = false ∧ optBad a.path = false ∧ optBad a.samesite = false ∧
+      a.kwargs.any kwBad = false ∧ isReserved name = false ∧ isLegalKey name = true ∧
+      applyKwargs (baseMorsel name value a) a.kwargs = (m, none) := by
+  obtain ⟨name, value, h1, h2, h3, h4, h5, h6, h7, h8, h9, h10, h11, _⟩ :=
+    buildMorsel_ok_inv a m (setCookie_nil_build a m h)
+  exact ⟨name, value, h1, h2, h3, h4, h5, h6, h7, h8, h9, h10, h11⟩
 
 theorem baseMorsel_avoid (B : Nat → Bool) (hB : ∀ c, B c = true → badKwChar c = true) (name value : Str)
     (a : CookieArgs) (hkey : isLegalKey name = true) (hd : optBad a.domain = false) (hp : optBad a.path = false)
